@@ -912,3 +912,110 @@ func genCrashpoints(r *Rng, idx int, tier string, step func(op string) string) {
 	do("stop")
 	do("crashcheck")
 }
+
+func init() {
+	register(&Suite{Name: "serve", NewStepper: newLoopStepper, GenStep: genServe})
+}
+
+// genServe: a torrent whose files are (partly) on disk serves scripted leechers: every choke / fast /
+// allowed-fast / piece-held combination, request triples from the 32-bit edge set, duplicates, cancels,
+// tiny read-cache block sizes so that requests cross cache blocks.
+func genServe(r *Rng, idx int, tier string, step func(op string) string) {
+	l := genLayout(r)
+	for l.numPieces() > 6 {
+		l.pl *= 2
+	}
+	rcb := r.Pick(1, 3, 7, 16, 100, 16384, 131072)
+	o := step(fmt.Sprintf("new pl=%d files=%s seeded=1 cfg.AllowedFastSet=%d cfg.ReadCacheBlockSize=%d cfg.ReadCacheSize=%d cfg.UnchokedPeers=%d cfg.OptimisticUnchokedPeers=%d",
+		l.pl, l.filesArg(), r.Pick(0, 2, 10), rcb, r.Pick(1, 64, 4096, 1<<20), r.Pick(1, 2, 3), r.Pick(0, 1)))
+	if !strings.HasPrefix(o, "ok") {
+		return
+	}
+	if r.Chance(30) {
+		// only part of the data is there: some requests are for pieces we do not have
+		step(fmt.Sprintf("mutate file=%d how=corrupt off=%d", r.Intn(len(l.lens)), r.Pick(0, 1, l.pl)))
+	}
+	last := step("start")
+	nextK := 1
+	type lp struct {
+		k          int
+		closed     bool
+		interested bool
+	}
+	var peers []*lp
+	do := func(op string) string {
+		last = step(op)
+		m := obsKV(last)
+		live := map[string]bool{}
+		for _, k := range commaList(m["peers"]) {
+			live[k] = true
+		}
+		for _, p := range peers {
+			if _, ok := m["peers"]; ok && !live[fmt.Sprint(p.k)] {
+				p.closed = true
+			}
+		}
+		return last
+	}
+	steps := r.Range(10, 30)
+	if tier == "thorough" {
+		steps *= 2
+	}
+	for s := 0; s < steps; s++ {
+		if strings.HasPrefix(last, "hang") || strings.HasPrefix(last, "dead") {
+			return
+		}
+		var live []*lp
+		for _, p := range peers {
+			if !p.closed {
+				live = append(live, p)
+			}
+		}
+		if len(live) == 0 || (r.Chance(12) && nextK <= 6) {
+			p := &lp{k: nextK}
+			nextK++
+			peers = append(peers, p)
+			if !strings.HasPrefix(do(fmt.Sprintf("peer k=%d fast=%s ext=0", p.k, b01(r.Chance(60)))), "accepted") {
+				p.closed = true
+			}
+			continue
+		}
+		p := live[r.Intn(len(live))]
+		roll := r.Intn(100)
+		switch {
+		case roll < 15:
+			do(fmt.Sprintf("msg p=%d t=interested", p.k))
+			p.interested = true
+		case roll < 20:
+			do(fmt.Sprintf("msg p=%d t=notinterested", p.k))
+		case roll < 26:
+			i := r.Intn(l.numPieces())
+			do(fmt.Sprintf("msg p=%d t=cancel i=%d b=%d l=%d", p.k, i, r.Pick(0, 1), r.Pick(1, l.pieceLen(i))))
+		case roll < 30:
+			do(fmt.Sprintf("disconnect p=%d", p.k))
+			p.closed = true
+		default:
+			i := r.Intn(l.numPieces() + 1)
+			pl := uint32(l.pieceLen(min(i, l.numPieces()-1)))
+			var b, ln uint32
+			if r.Chance(65) {
+				// in range, not aligned to anything
+				b = uint32(r.Intn(int(pl)))
+				ln = uint32(r.Range(1, min(int(pl-b), 16384)))
+			} else {
+				b = r.U32Edge(pl)
+				ln = r.U32Edge(pl)
+			}
+			if ln > 16384 {
+				// the reader closes the connection on longer requests before the loop sees them
+				ln = uint32(r.Pick(0, 1, 16384))
+			}
+			op := fmt.Sprintf("msg p=%d t=request i=%d b=%d l=%d", p.k, i, b, ln)
+			do(op)
+			if r.Chance(15) {
+				do(op) // duplicate
+			}
+		}
+	}
+	step("obs")
+}
